@@ -46,6 +46,30 @@ def zoo_task(t):
         except Exception as ex:  # noqa
             out["skipped"].append("%s: %r" % (name, ex))
             continue
+        if e.has("needs_init"):
+            # data-dependent initialisation happens inside the first training-mode call: the Parameter objects
+            # collected BEFORE that call (what an optimiser holds) are the ones that must receive the gradients
+            try:
+                mp = e.build(seed).double()
+                mp.train()
+                before = dict(mp.named_parameters())
+                xin_p = e.x(5, seed, torch.float64)
+                cin_p = e.ctx(5, seed, torch.float64)
+                op = "forward" if e.kind == "transform" else "log_prob"
+                r = getattr(mp, op)(xin_p, cin_p) if cin_p is not None else getattr(mp, op)(xin_p)
+                r = r if isinstance(r, (tuple, list)) else (r,)
+                sum((t_ * torch.linspace(0.5, 1.5, t_.numel(), dtype=torch.float64).reshape(t_.shape)).sum() for t_ in r).backward()
+                after = dict(mp.named_parameters())
+                out["n"] += 1
+                for n_, p_ in before.items():
+                    if after.get(n_) is not p_:
+                        out["fails"].append({"name": name, "mode": "train", "cache": False, "hist": "pristine", "result": op, "wrt": "params", "seed": seed, "clause": "no_gradient", "leaf": n_, "detail": "%s: the first training-mode %s replaces the Parameter object %s - the object collected before the call (held by an optimiser) is no longer the module's and receives no gradient (grad is %s)" % (name, op, n_, "None" if p_.grad is None else "set")})
+                        break
+                    if p_.grad is None and after[n_].requires_grad and any(s_ in n_ for s_ in ("log_scale", "shift")):
+                        out["fails"].append({"name": name, "mode": "train", "cache": False, "hist": "pristine", "result": op, "wrt": "params", "seed": seed, "clause": "no_gradient", "leaf": n_, "detail": "%s: %s receives no gradient from the call that initialises it" % (name, n_)})
+                        break
+            except Exception as ex:  # noqa
+                out["skipped"].append("%s pristine: %r" % (name, ex))
         k, hasctx, hascache = entry_kind(e, m)
         g = torch.Generator().manual_seed(seed + 3)
         x0 = e.x(3, seed, torch.float64)
